@@ -37,6 +37,6 @@ Practicalities:
       the demonstration file(s), plus in meta.json the path where each must be placed;
       meta.json    — {{"property": "{pid}", "summary": "...", "needs_to_manifest": "...", "files_changed": [...], "demo": {{"file": "<name>", "place_at": "<path in repo>", "run": "<exact go test command>"}}, "ran": ["<commands you ran and their outcome>"]}}
   - Verify yourself, in the worktree: with the patch → build ok, existing tests as before, demo FAILS; without the patch (git stash / checkout) → demo PASSES. Between A and B reset the worktree (`git checkout -- . && git clean -fdq`).
-  - Leave the worktree clean (no patch applied) at the end. Keep everything small. Finish within about 45 minutes.
+  - Never use `git stash` (the stash is shared by every worktree of the repository, other agents work in sibling worktrees): use `git diff > file`, `git apply -R` and `git checkout -- .` instead. Leave the worktree clean (no patch applied) at the end. Keep everything small. Finish within about 45 minutes.
 
 Your final message: for A and B one paragraph each: what was changed, why it breaks the property, what it needs to manifest, and the verification you performed (commands + outcomes).""")
